@@ -162,9 +162,14 @@ def roundtrip(ctx, cs, seed):
     ctx.check('file payload == text.encode(charset)', got == want, f'payload:{cs}', case,
               lambda: {'got': [g[2].hex() for g in got][:4], 'want': [w[2].hex() for w in want][:4]})
     # load under cs, then under latin1, then under cs again (state kept between loads would show)
-    for cs2 in (cs, 'latin1', cs):
+    import contextlib
+    for li, cs2 in enumerate((cs, 'latin1', cs, cs)):
         try:
-            back = MidiFile(file=io.BytesIO(b), charset=cs2)
+            if li == 3:
+                with contextlib.redirect_stdout(io.StringIO()):
+                    back = MidiFile(file=io.BytesIO(b), charset=cs2, debug=True)
+            else:
+                back = MidiFile(file=io.BytesIO(b), charset=cs2, clip=(li == 2))
         except Exception as exc:
             ctx.fail('loaded text == original', f'load-raised:{cs2}', case, f'{type(exc).__name__}: {exc}')
             check_probe(ctx, 'default charset after failed call', f'leak-after-failed-load:{cs2}', case)
@@ -265,6 +270,63 @@ def context_manager_case(ctx, cs):
         check_probe(ctx, 'default charset after successful call', 'leak-while-playing', case)
     except Exception as exc:
         ctx.fail('default charset after successful call', f'with-block:{type(exc).__name__}', case, repr(exc))
+        restore_default()
+
+
+def nested_case(ctx, outer, inner):
+    """A load/save under charset `inner` (the default latin1 included) while another charset is in
+    force: a user-level `with meta_charset(outer)` block, or a save whose track is a generator that
+    saves another file half way."""
+    from mido.midifiles.meta import meta_charset
+    case = {'kind': 'nested', 'outer': outer, 'inner': inner}
+    common = [c for c in alphabet(inner) if ord(c) > 127][:4] or ['a']
+    text = ''.join(common)
+    try:
+        with meta_charset(outer):
+            mid = MidiFile(charset=inner)
+            mid.tracks.append(MidiTrack([MetaMessage('text', text=text), MetaMessage('track_name', name=text, time=1)]))
+            buf = io.BytesIO()
+            mid.save(file=buf)
+            d = smf.decode_file(buf.getvalue())
+            got = [bytes(e[3]) for e in d['tracks'][0] if e[0] == 'meta' and e[2] in (1, 3)]
+            ctx.check('file payload == text.encode(charset)', got == [text.encode(inner)] * 2, f'nested-save:{outer}>{inner}', case,
+                      lambda: [g.hex() for g in got])
+            back = MidiFile(file=io.BytesIO(buf.getvalue()), charset=inner)
+            ctx.check('loaded text == original', back.tracks[0][0].text == text, f'nested-load:{outer}>{inner}', case,
+                      repr(back.tracks[0][0].text))
+            # the enclosing charset is in force again
+            import mido.midifiles.meta as mm
+            ctx.check('default charset after successful call', mm._charset == outer, 'nested-outer-not-restored', case, mm._charset)
+        check_probe(ctx, 'default charset after successful call', 'leak-after-nested', case)
+
+        # a save inside a save: the outer file's track is a generator that saves the inner file half way
+        inner_bytes = []
+        otext = 'x' + ''.join([c for c in alphabet(outer) if ord(c) > 127][:3])
+
+        def track():
+            yield MetaMessage('text', text=otext)
+            m2 = MidiFile(charset=inner)
+            m2.tracks.append(MidiTrack([MetaMessage('lyrics', text=text)]))
+            b2 = io.BytesIO()
+            m2.save(file=b2)
+            inner_bytes.append(b2.getvalue())
+            yield MetaMessage('marker', text=otext[::-1], time=2)
+        big = MidiFile(charset=outer)
+        big.tracks.append(track())
+        b = io.BytesIO()
+        big.save(file=b)
+        d = smf.decode_file(b.getvalue())
+        got = [bytes(e[3]) for e in d['tracks'][0] if e[0] == 'meta' and e[2] in (1, 6)]
+        want = [otext.encode(outer), otext[::-1].encode(outer)]
+        ctx.check('file payload == text.encode(charset)', got == want, f'save-inside-save-outer:{outer}>{inner}', case,
+                  lambda: [g.hex() for g in got])
+        d2 = smf.decode_file(inner_bytes[0])
+        got2 = [bytes(e[3]) for e in d2['tracks'][0] if e[0] == 'meta' and e[2] == 5]
+        ctx.check('file payload == text.encode(charset)', got2 == [text.encode(inner)], f'save-inside-save-inner:{outer}>{inner}',
+                  case, lambda: [g.hex() for g in got2])
+        check_probe(ctx, 'default charset after successful call', 'leak-after-save-inside-save', case)
+    except Exception as exc:
+        ctx.fail('file payload == text.encode(charset)', f'nested:{type(exc).__name__}', case, f'{type(exc).__name__}: {str(exc)[:120]}')
         restore_default()
 
 
@@ -466,6 +528,13 @@ def run(ctx):
                 long_text_case(ctx, cs, off)
                 ctx.nontrivial(('long-text', cs, off))
                 k += 1
+    nest = [(o, i) for o in ('utf-8', 'utf-16', 'shift_jis', 'cp1252', 'latin1') for i in ('latin1', 'utf-8', 'cp437', 'latin-1', 'iso-8859-1')
+            if o != i]
+    for ni, (o, i) in enumerate(nest):
+        if ni % N == sh:
+            nested_case(ctx, o, i)
+            ctx.nontrivial(('nested', o, i))
+            k += 1
     for ci, cs in enumerate(CHARSETS):
         if cs != 'latin1' and ci % N == sh:
             context_manager_case(ctx, cs)
@@ -506,6 +575,8 @@ def replay(ctx, case):
     k = case['kind']
     if k == 'roundtrip':
         roundtrip(ctx, case['charset'], case['seed'])
+    elif k == 'nested':
+        nested_case(ctx, case['outer'], case['inner'])
     elif k == 'long-text':
         long_text_case(ctx, case['charset'], case['ascii_prefix'])
     elif k == 'with-block':
